@@ -3,21 +3,21 @@ package ordersim
 import (
 	"time"
 
-	raftproto "github.com/meshplus/bitxhub/pkg/order/etcdraft/proto"
 	"github.com/coreos/etcd/raft/raftpb"
+	raftproto "github.com/meshplus/bitxhub/pkg/order/etcdraft/proto"
 )
 
 // "Ack, then crash": a biased fault schedule layered on the random driver (three-node raft clusters, drawn per run).
 // Faults placed uniformly at random hardly ever hit the window in which a follower has stored and acknowledged an
 // entry but has not yet learned that it is committed. The adversary builds exactly that history:
 //
-//	1. it waits for an append message with fresh entries from the leader L to a follower F, delivers it, and stops
-//	   every message from L to the third replica (which therefore never sees those entries);
-//	2. it delivers F's acknowledgement to L and stops L's messages to F: L commits with F's vote and hands the block to
-//	   its executor, F does not learn the commit index;
-//	3. F crashes; L is cut off from everybody;
-//	4. F restarts from its own storage, the cuts towards the third replica are healed, and the random driver goes on:
-//	   F and the third replica elect a leader and order new transactions.
+//  1. it waits for an append message with fresh entries from the leader L to a follower F, delivers it, and stops
+//     every message from L to the third replica (which therefore never sees those entries);
+//  2. it delivers F's acknowledgement to L and stops L's messages to F: L commits with F's vote and hands the block to
+//     its executor, F does not learn the commit index;
+//  3. F crashes; L is cut off from everybody;
+//  4. F restarts from its own storage, the cuts towards the third replica are healed, and the random driver goes on:
+//     F and the third replica elect a leader and order new transactions.
 //
 // Nothing is judged here: the ordinary history oracles (one content per height on all replicas, heights handed over
 // in order, no transaction in two blocks) see whether the entry L delivered survived F's restart.
